@@ -626,6 +626,12 @@ class WorldJob(object):
         desc0 = {'env': env0, 'faults': [], 'restart': False}
         only = spec.get('only')            # replay: restrict to one run descriptor
         pre, rec, post = self.run_once(env0, None)
+        if rec.get('exc') == 'WorldTooHeavy':
+            # event cap hit: a pathological generated world; it is skipped and counted, never judged
+            self.stats['worlds_too_heavy'] = 1
+            self.twin = (pre, rec, post, {'visits': [], 'P': []})
+            world.rmtree(self.root)
+            return
         t0 = self.judge(pre, rec, post, env0, desc0, faulty=False)
         self.stats['twin_visits'] = len(t0.get('visits', []))
         self.stats['twin_events'] = len(rec['events'])
